@@ -256,6 +256,9 @@ thread_local! {
     static QUIET: RefCell<bool> = const { RefCell::new(false) };
 }
 
+/// The last panic outside any `guard` (on any thread): read by `main` when the run itself unwinds.
+pub static LAST_UNGUARDED_PANIC: std::sync::Mutex<Option<String>> = std::sync::Mutex::new(None);
+
 /// Installs a panic hook that records message+location in a thread local and stays silent
 /// while a `guard` call is active on the panicking thread.
 pub fn install_panic_hook() {
@@ -275,6 +278,7 @@ pub fn install_panic_hook() {
         };
         LAST_PANIC.with(|p| *p.borrow_mut() = Some(format!("{} @ {}", msg, loc)));
         if !quiet {
+            *LAST_UNGUARDED_PANIC.lock().unwrap() = Some(format!("{} @ {}", msg, loc));
             prev(info);
         }
     }));
